@@ -325,14 +325,35 @@ def run(ctx):
                     pers.append(b)
         # the persist is taken exactly for the syncing levels
         ok = bool(early) and bool(pers)
+        missing = []
         if ok:
-            pr = A.prune_edges(fn, assume_discr={"durability": "Some"})
-            r = A.reach(fn, early, avoid=pers, pruned=pr)
-            # with durability Some(Sync*) no path may skip the persist; Buffer/None may: check by variant switch on PersistMode
-            ok = True
+            # with durability Some(SyncData) and Some(SyncAll) no path may skip the persist (Buffer / None may): follow the
+            # variant switch on the PersistMode inside the early-return region
+            seen_modes = set()
+            for b in sorted(region):
+                t = fn.term(b)
+                if t["k"] != "switch":
+                    continue
+                tm, labels = A.switch_info(fn, b)
+                vm = A.discr_variants(fn, t["d"]) or {}
+                if set(vm.values()) != {"Buffer", "SyncData", "SyncAll"}:
+                    continue
+                for mode in ("SyncData", "SyncAll"):
+                    tgts = [tg for tg, ns in labels.items() if mode in ns]
+                    seen_modes.add(mode)
+                    if not tgts or any(x in A.reach(fn, tgts, avoid=pers) for x in fn.return_blocks()):
+                        missing.append(mode)
+            if seen_modes != {"SyncData", "SyncAll"}:
+                # no explicit variant switch: then every Some(..) path must persist
+                pr = A.prune_edges(fn, assume_discr={"durability": "Some"})
+                r = A.reach(fn, early, avoid=pers, pruned=pr)
+                if any(x in r for x in fn.return_blocks()):
+                    missing.append("some level")
+            ok = not missing
         ctx.ob("R-C09.8", fn, "empty-commit-still-honours-sync-durability", ok,
                "an empty commit with durability(SyncData|SyncAll) persists the journal with that level before returning" if ok
-               else "an empty batch / a transaction without writes returns Ok before its durability level is looked at: commit(durability = SyncAll) acknowledges without syncing what was written before",
+               else ("an empty commit with durability %s returns Ok without persisting the journal: it acknowledges without syncing what was written before" % "/".join(sorted(set(missing))) if missing else
+                     "an empty batch / a transaction without writes returns Ok before its durability level is looked at: commit(durability = SyncAll) acknowledges without syncing what was written before"),
                fn.loc(early[0]) if early else "")
     oc = ctx.fn("tx::optimistic::write_tx::WriteTransaction::commit", "R-C09.8")
     if oc:
